@@ -132,6 +132,13 @@ def c06_request(rng, cfg, mode, value, style):
     extra = rng.choice(EXTRAS) if (mode == "dir" or rng.random() < 0.25) else ""
     if mode == "dir" and rng.random() < 0.1:
         extra = ""
+    if rng.random() < 0.12:
+        # one character of the path that a pattern language would treat specially is replaced by an ordinary one:
+        # the configured request path is compared literally, "grub.cfg" is not "grubXcfg"
+        idx = [i for i, ch in enumerate(base) if ch in ".+*?()[]{}|^$-"]
+        if idx:
+            i = rng.choice(idx)
+            base = base[:i] + rng.choice("Xx_0") + base[i + 1:]
     req = base + extra
     if style == "valid":
         if rng.random() < 0.5:
